@@ -46,6 +46,7 @@ M = [
  ("m16-prime", "C16", "v3/util/primes.go", "big.NewInt(709), ", ""),
  ("m16-rounds", "C16", "v3/lints/community/lint_rsa_fermat_factorization.go", "for i := 0; i < rounds; i++ {", "for i := 0; i <= rounds; i++ {"),
  ("m17-break", "C17", "v3/lints/rfc/lint_ext_san_space_dns_name.go", None, None),
+ ("m17-nfc-na-first", "C17", "v3/lints/rfc/lint_idn_dnsname_must_be_nfc.go", "\t\t\t\t\tunconvertible = true\n\t\t\t\t\tcontinue\n", "\t\t\t\t\treturn &lint.LintResult{Status: lint.NA}\n"),
  ("m18-removal", "C18", "v3/util/gtld.go", "if when.After(notAfter) {", "if !when.Before(notAfter) {"),
  ("m18-tolower", "C18", "v3/util/gtld.go", "labels := strings.Split(strings.ToLower(domain), \".\")", "labels := strings.Split(domain, \".\")"),
  ("m19-delete-block", "C19", "v3/util/ip.go", "{\"100.64.0.0/10\"}", "{\"100.64.0.0/11\"}"),
